@@ -183,6 +183,36 @@ def toSTHRfc (treeSize timestamp : Nat) (root : Bytes) (sig : Bytes) : Option ST
     | none => none
   else none
 
+/-! ## MerkleTreeLeafFromChain (RFC 6962 §3.2): which certificate of the chain gives what -/
+
+/-- what `MerkleTreeLeafFromChain` reads of a parsed certificate -/
+structure ChainCert where
+  raw : Bytes
+  tbs : Bytes
+  spki : Bytes
+  /-- `IsPreIssuer`: the certificate carries the Certificate Transparency extended key usage -/
+  ctEku : Bool
+
+/-- `MerkleTreeLeafFromChain(chain, etype, timestamp)` with `H` = SHA-256 and `build` = `x509.BuildPrecertTBS` (C03's subject):
+an X.509 entry is the leaf certificate; for a precertificate the issuer is `chain[1]`, unless that is a Precertificate Signing
+Certificate — then it is handed to `build` as pre-issuer and the *final* issuer `chain[2]` gives `issuer_key_hash`. -/
+def leafFromChain (H : Bytes → Bytes) (build : Bytes → Option ChainCert → Option Bytes) (chain : List ChainCert)
+    (etype ts : Nat) : Option Rfc.MerkleTreeLeaf :=
+  match chain with
+  | [] => none
+  | cert :: rest =>
+    if etype = 0 then some ⟨0, ⟨ts, .x509 cert.raw, []⟩⟩
+    else if etype ≠ 1 then none
+    else
+      match rest with
+      | [] => none
+      | issuer :: rest2 =>
+        if issuer.ctEku then
+          match rest2 with
+          | [] => none
+          | final :: _ => (build cert.tbs (some issuer)).map fun tbs => ⟨0, ⟨ts, .precert ⟨H final.spki, tbs⟩, []⟩⟩
+        else (build cert.tbs none).map fun tbs => ⟨0, ⟨ts, .precert ⟨H issuer.spki, tbs⟩, []⟩⟩
+
 /-! ## trillian/util/log_leaf.go: the extra data CTFE stores for an accepted submission -/
 
 /-- `ExtraDataForChain(cert, chain, isPrecert)`: `tls.Marshal(ct.PrecertChainEntry{cert, chain})` for a precertificate,
